@@ -413,6 +413,7 @@ func (e *errSink) mergeConflict() string {
 }
 
 type machine struct {
+	failedEntry int // entry whose recovery callback was made to fail (-1: none)
 	sink   errSink
 	d      *disk
 	walDir string
@@ -449,6 +450,7 @@ type proc struct {
 	w        *wal.Writer
 	buf      *ingest.ArrowBuffer
 	poisoned bool
+	failAt   int
 }
 
 func ridList(rs []int64) string {
@@ -545,6 +547,7 @@ type crashSignal struct{}
 // crashAt-th callback invocation returned.
 func (p *proc) recoverStartup(entryOfRid map[int64]int, fileOfEntry map[int]int, crashAt int) (crashed bool, err error) {
 	m := p.m
+	failAt := p.failAt // >0: the failAt-th callback invocation fails (injected back-pressure error), the real callback is not run
 	rowCb := createWALRecoveryCallback(p.buf, zerolog.Nop())
 	colCb := createColumnarRecoveryCallback(p.buf, zerolog.Nop())
 	present := map[string]bool{}
@@ -584,13 +587,20 @@ func (p *proc) recoverStartup(entryOfRid map[int64]int, fileOfEntry map[int]int,
 	cnt := 0
 	// the LTS event of an entry's replay is recorded when its callback starts: the callback re-buffers the
 	// entry's rows one by one and schema-change flushes of those rows happen inside it
-	before := func(rid interface{}) {
+	before := func(rid interface{}) bool {
+		fail := failAt > 0 && cnt+1 == failAt
 		if n, ok := asInt64(rid); ok {
 			if e, ok := entryOfRid[n]; ok && !replayed[e] {
-				replayed[e] = true
-				m.emit(fmt.Sprintf("t.replay %d", e))
+				if fail {
+					m.failedEntry = e
+					m.emit(fmt.Sprintf("t.fail %d", e))
+				} else {
+					replayed[e] = true
+					m.emit(fmt.Sprintf("t.replay %d", e))
+				}
 			}
 		}
+		return fail
 	}
 	after := func(rid interface{}) {
 		cnt++
@@ -604,7 +614,10 @@ func (p *proc) recoverStartup(entryOfRid map[int64]int, fileOfEntry map[int]int,
 		if len(records) > 0 {
 			rid = records[0]["rid"]
 		}
-		before(rid)
+		if before(rid) {
+			cnt++
+			return fmt.Errorf("injected: replay callback failed (back-pressure)")
+		}
 		err := rowCb(ctx, records)
 		if err != nil {
 			m.emit("t.cberr " + err.Error())
@@ -618,7 +631,10 @@ func (p *proc) recoverStartup(entryOfRid map[int64]int, fileOfEntry map[int]int,
 		if c := columns["rid"]; len(c) > 0 {
 			rid = c[0]
 		}
-		before(rid)
+		if before(rid) {
+			cnt++
+			return fmt.Errorf("injected: replay callback failed (back-pressure)")
+		}
 		err := colCb(ctx, database, measurement, columns)
 		if err != nil {
 			m.emit("t.cberr " + err.Error())
@@ -655,6 +671,7 @@ type scen struct {
 	torn       int  // extra bytes of the next entry left at the tail
 	crashAtCb  int  // first recovery dies after this many callbacks (0: no)
 	killAfter  bool // first recovery completes, process dies before any flush
+	failAtCb   int  // the failAtCb-th callback of the first recovery fails (injected error); then killAfter
 	freshDisk  bool // data-part comparison: the restarted process gets an empty object store, so that
 	// only what recovery restores is observed (rows flushed by schema-change flushes before the crash are
 	// the subject of the crash schedules, not of the data comparison)
@@ -667,6 +684,9 @@ type result struct {
 	persist int // entries persisted
 	nCb     int
 	err     error
+	fileOfEntry    map[int]int
+	failedEntry    int
+	failedFileKept bool
 	merge   string // a flush failed with a column type conflict in mergeBatches (its rows are gone)
 	stage   string
 	t0, t1  int64
@@ -690,7 +710,7 @@ func runScenario(c *vh.Ctx, us []*unit, sc scen) (res result) {
 		return res
 	}
 	defer os.RemoveAll(dir)
-	m := &machine{d: newDisk(), walDir: filepath.Join(dir, "wal")}
+	m := &machine{d: newDisk(), walDir: filepath.Join(dir, "wal"), failedEntry: -1}
 	res.t0 = time.Now().UnixMicro()
 	p, err := m.boot(sc.walMax)
 	if err != nil {
@@ -805,12 +825,24 @@ cutDone:
 	}
 	m.emit("t.restart")
 	stage = "recovery"
+	p2.failAt = sc.failAtCb
 	crashed, err := p2.recoverStartup(entryOfRid, fileOfEntry, sc.crashAtCb)
 	if err != nil {
 		res.err = err
 		res.stage = stage
 		p2.kill()
 		return res
+	}
+	res.fileOfEntry, res.failedEntry = fileOfEntry, m.failedEntry
+	if m.failedEntry >= 0 {
+		// the file holding the entry whose replay failed must survive this recovery pass
+		ord := fileOfEntry[m.failedEntry]
+		res.failedFileKept = false
+		for _, f := range m.walFiles() {
+			if m.fileOrd(f) == ord {
+				res.failedFileKept = true
+			}
+		}
 	}
 	last := p2
 	if crashed || sc.killAfter {
@@ -1068,6 +1100,36 @@ func crashMonitors(c *vh.Ctx, us []*unit, sc scen, res result, plain map[int64][
 			}
 		}
 	}
+	if sc.failAtCb > 0 {
+		if res.failedEntry < 0 {
+			return
+		}
+		key := "acked-row-lost:file-deleted-after-failed-replay"
+		fu := us[res.failedEntry]
+		kind := "row-format"
+		if fu.kind == "raw" {
+			kind = "columnar (raw)"
+		}
+		replay := fmt.Sprintf("%s ;; units: %s ;; crash after all WAL entries are persisted; restart: the recovery callback of WAL entry %d (%s) returns an error (injected; stands for cancelled ctx / back-pressure / validation error); process dies before a flush; restart again with a healthy callback; flush ;; events: %s",
+			reqsOf(us), describe(us), res.failedEntry, kind, strings.Join(res.ev, " | "))
+		if !res.failedFileKept {
+			c.Fail(key, fmt.Sprintf("RecoverWithOptions deleted the WAL file although the replay callback of its %s entry %d failed (the file is the only copy of that entry's acknowledged rows)", kind, res.failedEntry), replay)
+			c.Tag("mon:file-deleted-after-failed-replay")
+		}
+		ford := res.fileOfEntry[res.failedEntry]
+		for i, u := range us {
+			if i >= res.persist || res.fileOfEntry[i] != ford {
+				continue
+			}
+			for _, rid := range u.rids {
+				if len(plain[rid]) == 1 && cnt[rid] == 0 {
+					c.Fail(key, fmt.Sprintf("row rid=%d (acknowledged, WAL entry %d persisted, same WAL file as the entry whose replay failed) is stored 0 times after the next clean recovery", rid, i), replay)
+					c.Tag("mon:file-deleted-after-failed-replay")
+				}
+			}
+		}
+		return
+	}
 	var lostK string
 	switch {
 	case sc.killAfter:
@@ -1171,6 +1233,7 @@ func main() {
 		nHist = c.N
 	}
 	probeTypedFallback(c)
+	relDirStage(c)
 	// edge grid first: one minimal request per candidate class (their replays are the ones reported)
 	for i, q := range edgeRequests() {
 		runHistory(c, r.Fork(), []*areq{q}, -1-i)
@@ -1286,6 +1349,9 @@ func runHistory(c *vh.Ctx, r *vh.Rand, reqs []*areq, h int) {
 	}
 	for _, k := range pick(nCb) {
 		scs = append(scs, scen{name: fmt.Sprintf("kill-after-callback-%d", k+1), flushAfter: -1, keep: -1, crashAtCb: k + 1, walMax: walMax})
+	}
+	for _, k := range pick(nCb) {
+		scs = append(scs, scen{name: fmt.Sprintf("callback-%d-fails-then-kill", k+1), flushAfter: -1, keep: -1, failAtCb: k + 1, killAfter: true, walMax: walMax})
 	}
 	for _, j := range pick(len(us)) {
 		scs = append(scs, scen{name: fmt.Sprintf("flush-after-unit-%d-then-kill", j), flushAfter: j, keep: -1, walMax: walMax})
